@@ -500,15 +500,36 @@ func c05R3(c *Ctx, r *Report) {
 	if fd := c.decl("writeTXTStringByte"); fd == nil {
 		r.cerr("C05.R3.escape-sets", "writeTXTStringByte", "function not found")
 	} else {
-		set, lo, hi := c.escapeSetOf(fd)
 		var problems []string
-		for _, b := range []byte{'"', '\\'} {
-			if !set[b] {
-				problems = append(problems, fmt.Sprintf("%q is not backslash-escaped inside quoted strings", rune(b)))
+		// what the function does for each of the 256 octet values (abstract execution over its tests of the octet)
+		if fnS := c.ssaFunc("writeTXTStringByte"); fnS == nil || len(fnS.Params) < 2 {
+			problems = append(problems, "writeTXTStringByte(builder, octet) not found in SSA form")
+		} else {
+			cls := octetClasses(fnS, fnS.Params[len(fnS.Params)-1])
+			for _, b := range []byte{'"', '\\'} {
+				if !cls[b].Backslash || cls[b].DDD {
+					problems = append(problems, fmt.Sprintf("%q is not backslash-escaped inside quoted strings", rune(b)))
+				}
 			}
-		}
-		if lo != 0x20 || hi != 0x7e {
-			problems = append(problems, fmt.Sprintf("octets outside [0x20,0x7e] must be written as \\DDD; range found [%#x,%#x]", lo, hi))
+			var wrong []string
+			for v := 0; v < 256; v++ {
+				np := v < 0x20 || v > 0x7e
+				if np && (!cls[v].DDD || cls[v].Raw || cls[v].Backslash) {
+					wrong = append(wrong, fmt.Sprintf("%#x is not written as \\DDD", v))
+				}
+				if !np && cls[v].DDD {
+					wrong = append(wrong, fmt.Sprintf("%#x is written as \\DDD", v))
+				}
+				if !np && v != '"' && v != '\\' && (!cls[v].Raw || cls[v].Backslash) {
+					wrong = append(wrong, fmt.Sprintf("%#x is not written as itself", v))
+				}
+			}
+			if len(wrong) > 4 {
+				wrong = append(wrong[:4], fmt.Sprintf("... (%d octet values in all)", len(wrong)))
+			}
+			if len(wrong) > 0 {
+				problems = append(problems, "octets outside [0x20,0x7e] must be written as \\DDD and printable ones as themselves: "+strings.Join(wrong, ", "))
+			}
 		}
 		r.check(len(problems) == 0, "C05.R3.escape-sets", "writeTXTStringByte", c.pos(fd.Pos()), `{" \} + non-printables`, "%s", strings.Join(problems, "; "))
 	}
